@@ -298,7 +298,7 @@ Definition eager_level (L : level) : bool :=
   && match l_src L with SFib _ => true | SAnd x y => negb (Nat.eqb x y) end.
 
 Lemma eager_noall : forall tr zshape nz m lv, forallb eager_level lv = true ->
-  forall i pt e z, labinv i z -> labinv i (snd (run false tr zshape nz m lv i pt e z)).
+  forall i pt e z, labinv i z -> labinv i (snd (run tr zshape nz m lv i pt e z)).
 Proof.
   intros tr zshape nz m lv. induction lv as [|L lv IH]; intros Hpl i pt e z Hz.
   - cbn [run snd]. unfold leaf_update. destruct (th_z z) as [[v|es]|]; auto.
@@ -307,7 +307,7 @@ Proof.
     destruct L as [pop s u zu pj sh]. unfold eager_level in HL. cbn [l_pop l_src l_ufmt l_proj] in HL.
     destruct pop; [discriminate|]. destruct pj; [discriminate|].
     assert (Hb : forall c e' z', labinv (S i) z' ->
-              labinv (S i) (snd ((fun c0 e0 z0 => run false tr zshape nz m lv (S i) (pt ++ [c0]) e0 z0) c e' z'))).
+              labinv (S i) (snd ((fun c0 e0 z0 => run tr zshape nz m lv (S i) (pt ++ [c0]) e0 z0) c e' z'))).
     { intros c e' z' Hz'. apply IH; auto. }
     destruct (lab_reg_inv i z Hz) as (R1 & R2 & R3 & _ & R5).
     cbn [run]. unfold run_level. cbn [l_pop l_src l_proj l_ufmt l_shape fst snd].
@@ -334,8 +334,8 @@ Qed.
 
 Theorem eager_nest_spec_gen : forall zs n tr zshape nz m lv, forallb eager_level lv = true ->
   forall i pt e z, length pt = i -> labinv i z -> env_ok e -> nest_int_ok tr i lv e ->
-  spec zs tr n i lv pt e (fst (run false tr zshape nz m lv i pt e z))
-  /\ labinv i (snd (run false tr zshape nz m lv i pt e z)).
+  spec zs tr n i lv pt e (fst (run tr zshape nz m lv i pt e z))
+  /\ labinv i (snd (run tr zshape nz m lv i pt e z)).
 Proof.
   intros zs n tr zshape nz m lv. induction lv as [|L lv IH]; intros Hpl i pt e z Lpt Hz He Hio.
   - apply (plain_nest_spec_gen zs n tr zshape nz m [] eq_refl i pt e z Lpt Hz).
@@ -387,13 +387,13 @@ Qed.
 
 Theorem eager_nest_spec : forall zs n tr zshape nz m lv, forallb eager_level lv = true ->
   forall i pt e z, length pt = i -> labinv i z -> env_ok e -> nest_int_ok tr i lv e ->
-  spec zs tr n i lv pt e (fst (run false tr zshape nz m lv i pt e z)).
+  spec zs tr n i lv pt e (fst (run tr zshape nz m lv i pt e z)).
 Proof. intros. apply eager_nest_spec_gen; auto. Qed.
 
 (* read at the top of a collection session *)
 Theorem eager_nest_top : forall zs n tr zshape nz m lv keys m0 e z,
   forallb eager_level lv = true -> env_ok e -> nest_int_ok tr 0 lv e ->
-  let evs := fst (run false tr zshape nz m lv 0 [] e {| th_z := z; th_lab := lab0 |}) in
+  let evs := fst (run tr zshape nz m lv 0 [] e {| th_z := z; th_lab := lab0 |}) in
   let st' := exec n (init_state keys true m0) evs in
   let d := dr lv [([], e)] in
   m_lo st' = iota d
